@@ -1,5 +1,6 @@
-from . import props_rules, props_parse, props_tree, props_layout, props_eval
+from . import (props_rules, props_parse, props_tree, props_layout, props_eval, props_schema, props_terms,
+               props_problems)
 
 CHECKS = {}
-for m in (props_rules, props_parse, props_tree, props_layout, props_eval):
+for m in (props_rules, props_parse, props_tree, props_layout, props_eval, props_schema, props_terms, props_problems):
     CHECKS.update(m.CHECKS)
